@@ -53,8 +53,13 @@ def make_inputs(tier, seed, wd):
                 bp['qrh'] ^= 1 << r.randrange(18)
             else:
                 bp['opcodes'] = list(bp['opcodes']) + [r.randrange(7, 16)]
+        heavy_aec = (i % 5 == 1)
+        if heavy_aec:
+            for bp in pre['bps']:
+                bp['max'] = 10000
+                bp['oth'] |= 2
         cases.append(gen.gen_history(r, 'in%04d' % i, preamble=pre, comp='none', kind='name', rotations=False, direct=(i % 4 == 0), addbp=False,
-                                     nops=r.choice([3, 10, 30, 80]), weights=dict(setactive=10)))
+                                     nops=r.choice([3, 10, 30, 80]) if not heavy_aec else 90, weights=dict(setactive=10, aec=60 if heavy_aec else 13)))
     er = ExportRun(PROP, cases, 'c18in', need_lib_read=False)
     inputs = []
     try:
@@ -72,11 +77,20 @@ def make_inputs(tier, seed, wd):
                     # the same data as another producer may legitimately encode it: members in another order, indefinite lengths,
                     # block-parameters-index omitted where it is 0 (RFC 8618: ".default 0")
                     rr = gen.seeded(seed, 'C18rw', pc['case']['id'])
-                    if rr.random() < 0.5:
+                    if rr.random() < 0.5 or int(pc['case']['id'][2:]) % 5 == 1:
                         try:
                             new = reencode(rr, o.data)
                             d2 = cdns_schema.parse(new)
-                            nb = lambda bs: [dict(b, bpi=b['bpi'] or 0) for b in bs]
+                            def nb(bs):
+                                out = []
+                                for b in bs:
+                                    agg = {}
+                                    for a in b['aec']:
+                                        kk = (a['t'], a.get('code'), a.get('tf'), a['ip'])
+                                        agg[kk] = agg.get(kk, 0) + a['cnt']
+                                    c = [len(b['qr']), len(agg), len(b['mm'])]
+                                    out.append(dict(b, bpi=b['bpi'] or 0, aec=sorted(agg.items(), key=repr), counts=c + [sum(c)]))
+                                return out
                             if nb(d2.blocks) == nb(d.blocks) and d2.preamble == d.preamble:
                                 p2 = os.path.join(wd, pc['case']['id'] + '_re.cdns')
                                 with open(p2, 'wb') as f:
@@ -95,6 +109,21 @@ def reencode(r, data):
     for n in cbor.walk(doc.root):
         if n.major == cbor.MAP and n.ann == 'BlockPreamble' and r.random() < 0.7:
             n.value = [(k, v) for k, v in n.value if not (k.value == 1 and v.value == 0)]
+        if n.major == cbor.MAP and n.ann == 'Block':
+            # an address event reported as two items with the same key and different counts (valid; a producer that does
+            # not aggregate writes it like this)
+            for k, v in n.value:
+                if k.value == 4 and v.major == cbor.ARRAY and r.random() < 0.6:
+                    extra = []
+                    for item in v.value:
+                        cnt = [vv for kk, vv in item.value if kk.value == 4]
+                        if cnt and cnt[0].value >= 3 and r.random() < 0.7:
+                            take = r.randrange(1, (cnt[0].value - 1) // 2 + 1)
+                            if take != cnt[0].value - take:
+                                cnt[0].value -= take
+                                cnt[0].width = None
+                                extra.append(cbor.Node(cbor.MAP, [(cbor.Node(cbor.UINT, kk.value), cbor.Node(vv.major, vv.value if kk.value != 4 else take)) for kk, vv in item.value]))
+                    v.value.extend(extra)
     return rewrite.rewrite(r, cbor.encode(doc.root), ['permute_maps', 'indef_container'], p=0.6)[0]
 
 
